@@ -296,11 +296,18 @@ Section Prims.
     | OExport => (st, BExported (map export_secret k))
     | OReimport => ({| k_pkts := map relock k; k_scopes := [] |}, BDone)
     | OAddSub ms chk =>
-      (* PGPKey.add_subkey attaches the subkey BEFORE self.bind (a KeyAction with is_unlocked=True) may refuse: the packet is
-         appended in both cases; the new key material is unprotected whatever the state of the primary *)
-      ({| k_pkts := k ++ [{| p_blob := None; p_fields := ms; p_chk := chk |}]; k_scopes := k_scopes st |},
-       if primary_unlocked k then BDone else BRefused)
+      (* PGPKey.add_subkey attaches the subkey and then asks for the binding signature (self.bind, a KeyAction with
+         is_unlocked=True); since repair 163b208 a refused binding (the primary is locked) undoes the attachment: the key is
+         left as it was.  The new key material is unprotected whatever the state of the primary. *)
+      if primary_unlocked k then
+        ({| k_pkts := k ++ [{| p_blob := None; p_fields := ms; p_chk := chk |}]; k_scopes := k_scopes st |}, BDone)
+      else (st, BRefused)
     end.
+
+  (* the rule before repair 163b208: the packet stayed attached (without binding signature) when the binding was refused *)
+  Definition add_sub_old (st : kst) (ms : list Z) (chk : bytes) : kst * obs :=
+    ({| k_pkts := k_pkts st ++ [{| p_blob := None; p_fields := ms; p_chk := chk |}]; k_scopes := k_scopes st |},
+     if primary_unlocked (k_pkts st) then BDone else BRefused).
 
   Definition run (ops : list op) (st : kst) : kst := fold_left (fun s o => fst (step s o)) ops st.
   Fixpoint run_obs (ops : list op) (st : kst) : list obs :=
@@ -363,7 +370,8 @@ Section Prims.
     | OProtect pass alg halg count rnd =>
       if primary_protected (k_pkts st) && negb (primary_unlocked (k_pkts st)) then syms
       else if can_encrypt alg then protect_syms pass alg halg count rnd (k_pkts st) else syms
-    | OAddSub ms chk => syms ++ [sym_of_pkt {| p_blob := None; p_fields := ms; p_chk := chk |}]
+    | OAddSub ms chk =>
+      if primary_unlocked (k_pkts st) then syms ++ [sym_of_pkt {| p_blob := None; p_fields := ms; p_chk := chk |}] else syms
     | _ => syms
     end.
 
